@@ -181,7 +181,8 @@ fn sig_of(n: i32) -> Signal {
 }
 
 pub fn issue(job: &Job, op: &Op, id: u32, jobno: u8) -> Ticket {
-    let g = |ms: u64| Duration::from_millis(ms);
+    // (u64::MAX stands for Duration::MAX: "wait for ever")
+    let g = |ms: u64| if ms == u64::MAX { Duration::MAX } else { Duration::from_millis(ms) };
     match op {
         Op::Start => job.start(),
         Op::Stop => job.stop(),
@@ -602,6 +603,8 @@ pub struct Digest {
     pub hooks: Vec<(u64, u32, u32)>,
     pub errs: Vec<(u64, u32, String)>,
     pub task_end: Option<(u64, u32, bool)>,
+    /// virtual instant at which the scenario was over (the horizon of what can be judged)
+    pub run_end: u64,
     pub handles_dropped: Option<(u64, u32)>,
 }
 
@@ -611,7 +614,10 @@ pub fn digest(out: &RunOut) -> Digest {
     for r in &out.hist {
         match &r.ev {
             // the root drops its own Job handle after the scenario is over; what happens then is not judged
-            Ev::Note { what: "task-finished-at-end", .. } => scenario_over = true,
+            Ev::Note { what: "task-finished-at-end", .. } => {
+                scenario_over = true;
+                d.run_end = r.t;
+            }
             _ if scenario_over => {}
             Ev::CtlSend { op, .. } => {
                 d.send.insert(*op, (r.t, r.seq));
